@@ -424,4 +424,14 @@ example : (run exCfg State.init
 example : (run exCfg State.init
     [ .enter true, .begin_ 1 [{ size := 50, topic := "" }, { size := 101, topic := "" }], .reject 1 .toolarge 1 ]).isSome = true := by decide
 
+/-- a cancelled synchronous call: WriteMessages returns ctx.Err() while its only batch is still attached; timer, queue
+and sender then produce the message all the same (non-vacuity of `cancelled_call_still_flushed`) -/
+example : ((run { exCfg with async := false } State.init
+    [ .enter true, .begin_ 1 [{ size := 50, topic := "" }], .assign 1 0 ("t", 0), .batch 1, .newPW 1 1 ("t", 0),
+      .newBatch 1 1, .add 1 1 1 0 50, .batched 1, .ret 1 .ctx,
+      .timerFire 1 1 true, .detach 1 1 .timer 0, .qput 1 1 true, .qget 1 (some 1), .attempt 1 1 0,
+      .produce 1 ("t", 0) [(1, 0)] .acked, .attemptDone 1 1 0 0, .complete 1 1 0 ]).map
+        (fun s => ((s.log ("t", 0)).map (·.msg), (s.calls 1).map (·.result)))) =
+    some ([(1, 0)], some (some .ctx)) := by decide
+
 end KV.C08
